@@ -108,7 +108,10 @@ def parse_len(v, lo=255, hi=1048575):
     return max(lo, min(hi, n * f)), well
 
 
-def parse(data, known_outputs):
+def parse(data, known_outputs, defaults=None):
+    """defaults: overrides of the built-in defaults for builds configured differently (e.g. --enable-error-logging)"""
+    DEFAULTS = dict(globals()['DEFAULTS'])
+    DEFAULTS.update(defaults or {})
     vals = dict(DEFAULTS)
     loose = set()
     for section, name, val, kind in pairs(data):
